@@ -29,6 +29,7 @@ import (
 	"fmt"
 	"math/rand/v2"
 	"net/http"
+	"os"
 	"runtime"
 	"strings"
 	"sync"
@@ -42,7 +43,7 @@ var paths = map[string]authsim.Set{
 	"/v2/":                     authsim.NewSet(),
 	"/v2/a/manifests/x":        authsim.NewSet("repository:a:pull"),
 	"/v2/a/blobs/uploads/":     authsim.NewSet("repository:a:pull", "repository:a:push"),
-	"/v2/catalog/manifests/x":        authsim.NewSet("repository:catalog:pull"),
+	"/v2/catalog/manifests/x":  authsim.NewSet("repository:catalog:pull"),
 	"/v2/_catalog":             authsim.NewSet("registry:catalog:*"),
 	"/v2/a/blobs/mount-from-b": authsim.NewSet("repository:a:pull", "repository:a:push", "repository:catalog:pull"),
 }
@@ -67,7 +68,9 @@ func (c cell) String() string {
 	return fmt.Sprintf("shape=%s reply=%s config=%s body=%s cred=%s", authsim.Shapes[c.Shape].Name, replies[c.Reply], cfgKinds[c.Cfg], authsim.BodyNames[c.Body], credKinds[c.Cred])
 }
 
-func productSize() int { return len(authsim.Shapes) * len(replies) * 2 * len(authsim.BodyNames) * len(credKinds) }
+func productSize() int {
+	return len(authsim.Shapes) * len(replies) * 2 * len(authsim.BodyNames) * len(credKinds)
+}
 
 func cellAt(j int) cell {
 	var c cell
@@ -615,6 +618,17 @@ func main() {
 		}
 		iwg.Wait()
 		run.FloorCounter("token_retry_versus_basic_challenge/retry_reached", 4)
+	}
+
+	if dir, err := os.MkdirTemp("", "c11-cfg"); err == nil {
+		for i := 0; i < 40; i++ {
+			configFileHosts(run, i, dir)
+		}
+		os.RemoveAll(dir)
+		run.FloorCounter("config_file_host_conversations", 40)
+		run.FloorCounter("config_file_credentials_reached_their_host", 10)
+	} else {
+		run.Inconclusive("no temporary directory: " + err.Error())
 	}
 
 	for _, s := range authsim.Shapes {
